@@ -1,7 +1,7 @@
 """Rebuild everything a check needs from /repo's current working tree (serialised by a file lock)."""
 import os, subprocess, fcntl, json, time, filecmp, shutil, re, tempfile
 
-V = "/verif"
+V = os.environ.get("VERIF_HOME", "/verif")
 REPO = os.environ.get("VERIF_REPO", "/repo")
 LEAN = os.path.join(V, "lean")
 BIN = os.path.join(V, "bin")
@@ -11,7 +11,7 @@ GOENV.pop("GOSUMDB", None)
 
 
 def sh(cmd, cwd=None, env=None, timeout=3600):
-    p = subprocess.run(cmd, cwd=cwd, env=env, shell=isinstance(cmd, str), capture_output=True, text=True, timeout=timeout)
+    p = subprocess.run(cmd, cwd=cwd, env=env, shell=isinstance(cmd, str), capture_output=True, text=True, errors="replace", timeout=timeout)
     return p.returncode, p.stdout + p.stderr
 
 
@@ -43,21 +43,31 @@ def prepare():
     st = {"ok": True, "errors": [], "lake_failed_modules": [], "gen_changed": []}
     try:
         # 1. harness against /repo's working tree, hooks on
-        rc, out = sh(["go", "build", "-tags", "verif", "-o", os.path.join(BIN, "harness"), "."], cwd=os.path.join(V, "harness"), env=GOENV)
+        modargs = []
+        if REPO != "/repo":
+            # isolated trial: same harness sources, module replaced by the trial copy of the repository
+            alt = os.path.join(BIN, "alt.mod")
+            with open(os.path.join(V, "harness", "go.mod")) as f:
+                txt = f.read().replace("=> /repo", "=> " + REPO)
+            with open(alt, "w") as f:
+                f.write(txt)
+            open(os.path.join(BIN, "alt.sum"), "w").close()
+            modargs = ["-modfile=" + alt]
+        rc, out = sh(["go", "build"] + modargs + ["-tags", "verif", "-o", os.path.join(BIN, "harness"), "."], cwd=os.path.join(V, "harness"), env=GOENV)
         if rc != 0:
             st["ok"] = False; st["errors"].append("harness build failed:\n" + out[-3000:])
             return st
         # 2. regenerate DC/Gen
         tmp = tempfile.mkdtemp(prefix="verif-gen-")
         try:
-            rc, out = sh([os.path.join(BIN, "harness"), "tool", "gen-lean", tmp])
+            rc, out = sh([os.path.join(BIN, "harness"), "tool", "gen-lean", tmp], env=dict(os.environ, VERIF_REPO=REPO))
             if rc != 0:
                 st["ok"] = False; st["errors"].append("gen-lean failed:\n" + out[-2000:]); return st
             if os.path.isdir(os.path.join(V, "extract")):
                 rc, out = sh(["go", "build", "-o", os.path.join(BIN, "extract"), "."], cwd=os.path.join(V, "extract"), env=GOENV)
                 if rc != 0:
                     st["ok"] = False; st["errors"].append("extract build failed:\n" + out[-3000:]); return st
-                rc, out = sh([os.path.join(BIN, "extract"), "--repo", REPO, "--lean", tmp, "--json", os.path.join(BIN, "facts.json")], env=GOENV)
+                rc, out = sh([os.path.join(BIN, "extract"), "--repo", REPO, "--lean", tmp, "--json", os.path.join(BIN, "facts.json")], env=dict(GOENV, VERIF_NODEKINDS_CACHE=os.path.join(BIN, "nodekinds.cache")))
                 if rc != 0:
                     st["ok"] = False; st["errors"].append("extract failed:\n" + out[-3000:]); return st
             st["gen_changed"] = sync_gen(tmp)
